@@ -112,8 +112,7 @@ impl std::ops::IndexMut<usize> for DVector {
         ensures final(self).len() == old(self).len(), forall|j: int| 0 <= j < old(self).len() ==> #[trigger] final(self).at(j) == (if j == i { *final(r) } else { old(self).at(j) })
     { unimplemented!() }
 }
-pub assume_specification<T: Clone>[ <[T]>::fill ](s: &mut [T], value: T)
-    ensures final(s)@.len() == old(s)@.len(), forall|i: int| 0 <= i < old(s)@.len() ==> final(s)@[i] == value;
+// (`<[T]>::fill` is specified in unit shape's prelude)
 impl<'a, T> IndexSpecImpl<usize> for BulkOutput<'a, T> {
     open spec fn index_req(&self, i: &usize) -> bool { *i < self.data@.len() && self.data@[*i as int]@.len() >= self.len }
 }
@@ -386,4 +385,4 @@ def build(repo, trace):
             Obligation('solver::<BulkOutput as Index>::index', 'solver', 'BulkOutput::index', props=PROPS),
             Obligation('solver::Solver::get_err', 'solver', 'Solver::get_err', props=PROPS),
             Obligation('solver::lemma_err_sum_ext', 'solver', 'lemma_err_sum_ext', props=PROPS, kind='lemma')]
-    return {'texts': {'base': inj.s}, 'obligations': obls, 'canary_fns': ['Solver::get_err', 'Solver::get_jacobian']}
+    return {'texts': {'base': inj.s}, 'obligations': obls, 'canary_fns': ['Solver::get_err', 'Solver::get_jacobian'], 'verus_args': sh.get('verus_args', [])}
